@@ -321,19 +321,18 @@ theorem toInts_quote_left (s tc : Bytes) (hs : s ≠ b "*") : toInts (sqlQuote s
   unfold toInts
   simp only [sqlQuote_ne_starQ s hs, Bool.false_eq_true, if_false, atoi_sqlQuote]
 
-theorem toFloats_quote_left (s tc : Bytes) : toFloats (sqlQuote s) tc = none := by
+theorem toFloats_quote_left (s tc : Bytes) (hs : s ≠ b "*") : toFloats (sqlQuote s) tc = none := by
   unfold toFloats
-  simp only [sqlQuote_ne_star s, Bool.false_eq_true, if_false, parseFloat_sqlQuote]
+  simp only [sqlQuote_ne_starQ s hs, Bool.false_eq_true, if_false, parseFloat_sqlQuote]
 
 theorem toInts_star_quote (s : Bytes) (hs : s ≠ b "*") : toInts starQ (sqlQuote s) = none := by
   unfold toInts
   simp only [beq_self_eq_true, if_true, sqlQuote_ne_starQ s hs, Bool.false_eq_true, if_false, atoi_sqlQuote]
 
-theorem toFloats_star (tc : Bytes) : toFloats starQ tc = none := by
-  have h1 : (starQ == b "*") = false := by decide
-  have h2 : parseFloat starQ = none := by rw [starQ_cons]; exact parseFloat_quote _
+/-- since fix F12 `toFloats` recognises the open end `'*'`; next to a quoted string it still fails (on the string) -/
+theorem toFloats_star_quote (s : Bytes) (hs : s ≠ b "*") : toFloats starQ (sqlQuote s) = none := by
   unfold toFloats
-  simp only [h1, Bool.false_eq_true, if_false, h2]
+  simp only [beq_self_eq_true, if_true, sqlQuote_ne_starQ s hs, Bool.false_eq_true, if_false, parseFloat_sqlQuote]
 
 theorem atoi_starQ : atoi starQ = none := by rw [starQ_cons]; exact atoi_quote _
 
@@ -488,7 +487,8 @@ def valueKind : Prim → Bool
     * `[int TO int]` — `f >= a AND f <= b`; the field is printed twice, so it must be a column (`hf`);
     * `[* TO "str"]`, `["str" TO anything]` — BETWEEN in both modes (also when exclusive, also with an open end).
     Ints must be int64 values (the model's `Int` is unbounded; Go's `int` is not).
-    Excluded: a float as the first bounded end, and an int as lower end with a non-int, non-`*` upper end. -/
+    Excluded: a float as the first bounded end (`rang` re-formats it with `%.2f`: see `endsRenum`, which since fix F12
+    also covers the open float ranges), and an int as lower end with a non-int, non-`*` upper end. -/
 def endsExact (hf : Bool) (qa qc : Prim) : Bool :=
   match qa with
   | .str sa =>
@@ -532,7 +532,7 @@ theorem range_core {R : Prim → Bytes → Prop} (hR : ∀ p, R p (litText p)) (
           exact core_between hR incl pl xl yl hleft starQ (b "?") starQ (sqlQuote sc) [] [.str sc] (.str sc) [] rfl
             (by intro i h; cases h) (by intro f h; cases h) (.inr rfl) (.inl rfl) (by decide)
             (HasR.text _ clean_starQ) hh stable_starQ (stable_sqlQuote sc)
-            (toInts_star_quote sc hsc) (toFloats_star _) sP sI hP hI
+            (toInts_star_quote sc hsc) (toFloats_star_quote sc hsc) sP sI hP hI
       case int j =>
         have hne : Prim.int j ≠ .str (b "*") := by intro h; cases h
         rw [endP_ne _ hne] at hP ⊢
@@ -546,7 +546,7 @@ theorem range_core {R : Prim → Bytes → Prop} (hR : ∀ p, R p (litText p)) (
       exact core_between hR incl pl xl yl hleft (b "?") (endP qc).1 (sqlQuote sa) (litText qc) [.str sa] (endP qc).2
         (.str sa) (endP qc).2 rfl (by intro i h; cases h) (by intro f h; cases h) (.inl rfl) (endP_isEndText qc)
         (by simp [q_eq_q]) hh (endP_inst hR qc) (stable_sqlQuote sa) (stable_litText qc hqc)
-        (toInts_quote_left sa _ hsa) (toFloats_quote_left sa _) sP sI hP hI
+        (toInts_quote_left sa _ hsa) (toFloats_quote_left sa _ hsa) sP sI hP hI
   case int i =>
     simp only [endsExact, Bool.and_eq_true] at hex
     obtain ⟨hi, hex⟩ := hex
@@ -627,7 +627,7 @@ theorem toInts_inv (ta tc : Bytes) (i j : Int) (h : toInts ta tc = some (i, j)) 
       | some j' => simp [hc] at h; rw [h.2]
 
 theorem toFloats_inv (ta tc : Bytes) (f g : F64) (h : toFloats ta tc = some (f, g)) :
-    ((ta == b "*") = false → parseFloat ta = some f) ∧ ((tc == b "*") = false → parseFloat tc = some g) := by
+    ((ta == starQ) = false → parseFloat ta = some f) ∧ ((tc == starQ) = false → parseFloat tc = some g) := by
   unfold toFloats at h
   constructor
   · intro hs
@@ -719,12 +719,16 @@ theorem core_cmp {R : Prim → Bytes → Prop} (incl : Bool) (qa qc : Prim) (X Y
 /-- The forms of a range boundary on which the two renderers print instances of one template UP TO the
     re-formatting of numeric ends (`Renum`): the exact forms, and the comparison forms with int / float ends for which
     `rang` does not fall through to BETWEEN (`toInts` or `toFloats` succeeds); a two-sided one needs a column field.
-    Still excluded: a numeric first bounded end where `rang` prints BETWEEN (`[1 TO "b"]`, and `[* TO 2.5]`,
-    `[2.5 TO *]`: `toFloats` compares with `*`, not `'*'`), and a two-sided comparison over a non-column field. -/
+    Since fix F12 (`toFloats` compares the open end with `'*'`, as `toInts` does) this includes the OPEN FLOAT ranges
+    `[* TO 2.5]`, `[2.5 TO *]`: inline `f <= 2.50`, parameter mode `f <= ?`.
+    Still excluded: a numeric first bounded end where `rang` prints BETWEEN (`[1 TO "b"]`), and a two-sided
+    comparison over a non-column field. -/
 def endsRenum (hf : Bool) (qa qc : Prim) : Bool :=
   endsExact hf qa qc ||
-    (decide (qa = .str (b "*")) && isNum qc && (toInts (litText qa) (litText qc)).isSome) ||
-    (isNum qa && decide (qc = .str (b "*")) && (toInts (litText qa) (litText qc)).isSome) ||
+    (decide (qa = .str (b "*")) && isNum qc &&
+      ((toInts (litText qa) (litText qc)).isSome || (toFloats (litText qa) (litText qc)).isSome)) ||
+    (isNum qa && decide (qc = .str (b "*")) &&
+      ((toInts (litText qa) (litText qc)).isSome || (toFloats (litText qa) (litText qc)).isSome)) ||
     (isNum qa && isNum qc && hf &&
       ((toInts (litText qa) (litText qc)).isSome || (toFloats (litText qa) (litText qc)).isSome))
 
@@ -766,8 +770,8 @@ theorem core_num (incl : Bool) (qa qc : Prim)
       rw [rt_floats _ _ _ _ _ _ hti htf] at hI'
       obtain ⟨h1, h2⟩ := toFloats_inv _ _ _ _ htf
       exact core_cmp incl qa qc (fmtFixed f 2) (fmtFixed g 2) ha hc hnb pl xl yl hleft hpl
-        (fun hn => .inr (.inr ⟨f, h1 (allNum_ne_star _ (isNum_allNum qa hn)), rfl⟩))
-        (fun hn => .inr (.inr ⟨g, h2 (allNum_ne_star _ (isNum_allNum qc hn)), rfl⟩)) sP sI hP hI'
+        (fun hn => .inr (.inr ⟨f, h1 (allNum_ne_starQ _ (isNum_allNum qa hn)), rfl⟩))
+        (fun hn => .inr (.inr ⟨g, h2 (allNum_ne_starQ _ (isNum_allNum qc hn)), rfl⟩)) sP sI hP hI'
 
 theorem range_core_renum (hf : Bool) (qa qc : Prim) (hex : endsRenum hf qa qc = true) (incl : Bool) (pl : List Prim)
     (xl yl : Bytes) (hleft : HasR Renum pl xl yl) (hpl : hf = true → pl = []) (sP sI : Bytes)
@@ -777,9 +781,9 @@ theorem range_core_renum (hf : Bool) (qa qc : Prim) (hex : endsRenum hf qa qc = 
   simp only [endsRenum, Bool.or_eq_true, Bool.and_eq_true, decide_eq_true_eq] at hex
   rcases hex with ((hex | ⟨⟨rfl, hc⟩, hs⟩) | ⟨⟨ha, rfl⟩, hs⟩) | ⟨⟨⟨ha, hc⟩, hhf⟩, hs⟩
   · exact range_core renum_lit hf qa qc hex incl pl xl yl hleft hpl sP sI hP hI
-  · exact core_num incl _ qc (.inl rfl) (.inr hc) (fun h => isNum_ne_star qc hc h.2) (.inl hs) pl xl yl hleft
+  · exact core_num incl _ qc (.inl rfl) (.inr hc) (fun h => isNum_ne_star qc hc h.2) hs pl xl yl hleft
       (fun h _ => by simp [isNum] at h) sP sI hP hI
-  · exact core_num incl qa _ (.inr ha) (.inl rfl) (fun h => isNum_ne_star qa ha h.1) (.inl hs) pl xl yl hleft
+  · exact core_num incl qa _ (.inr ha) (.inl rfl) (fun h => isNum_ne_star qa ha h.1) hs pl xl yl hleft
       (fun _ h => by simp [isNum] at h) sP sI hP hI
   · exact core_num incl qa qc (.inr ha) (.inr hc) (fun h => isNum_ne_star qa ha h.1) hs pl xl yl hleft
       (fun _ _ => hpl hhf) sP sI hP hI
